@@ -320,6 +320,9 @@ def loop_over_map(interp, st, env, view):
         raise MergeAbort("nested loop over a symbolic map in merge mode")
     if try_accumulate(interp, st, env, view):
         return
+    from . import symcoll as _sc
+    if _sc.conditional_items_update_loop(interp, st, env, view):
+        return
     sig = loop_signature(st) + ' -> ' + ','.join(sorted(assigned_targets(st)))
     inv = interp.loop_invariants.get(sig) or interp.loop_invariants.get(loop_signature(st))
     m = view.m
